@@ -118,6 +118,23 @@ class Tagger:
         return r
 
 
+class _AsyncCallable:
+    """a hook given as a callable *object* whose __call__ is a coroutine function (not a function, not a bound method)"""
+
+    def __init__(self, bound):
+        self._bound = bound
+
+    async def __call__(self, *a, **k):
+        return await self._bound(*a, **k)
+
+
+def callable_object_tagger():
+    """the same hooks as Tagger, each one an attribute holding an _AsyncCallable"""
+    base = Tagger()
+    attrs = {name: _AsyncCallable(getattr(base, name)) for name in dir(Tagger) if name.startswith("on_")}
+    return type("CallableObjectTagger", (), attrs)()
+
+
 class TagScalar:
     def coerce_output(self, v):
         return "out:" + str(v)
@@ -140,7 +157,8 @@ def render(v):
 def build(p):
     name = harness.fresh_name("c13")
     for k in range(NDIR):
-        Directive("t%d" % (k + 1), schema_name=name)(Tagger())
+        # every other directive implements its hooks as callable objects instead of async methods
+        Directive("t%d" % (k + 1), schema_name=name)(Tagger() if k % 2 else callable_object_tagger())
     Scalar("Tag", schema_name=name)(TagScalar())
 
     @Resolver("Query.f", schema_name=name)
